@@ -25,8 +25,10 @@ LEVEL_TEXT = ("Machine-checked proof (Coq, closed under the global context) that
 LEVEL_NOTE = ("Trusted: Coq kernel + vm_compute; hand-written model coq/Model/C33.v (+ Message primitives of "
               "Model/C39.v) validated only by the correspondence run; int() truncation of float times and UTF-8 "
               "encoding of str keys/values happen in the harness before the model sees the case; the extended loop "
-              "is modelled up to len(buffer)+1 iterations (later ones are idempotent).")
-TECHNIQUE = "Coq proof (segment-wise round trip over C39's codec lemmas) + vm_compute differential correspondence"
+              "is modelled up to len(buffer)+1 iterations (later ones are idempotent). FLAG_* values and the presence "
+              "of the count guard are regenerated from sftp_attr.py by gen/c33.py, which also pins the statement "
+              "sequence of _pack/_unpack by AST (fail-closed).")
+TECHNIQUE = "Coq proof (segment-wise round trip over C39's codec lemmas) over generated constants + AST-pinned shapes + vm_compute differential correspondence"
 
 FLAG_SIZE, FLAG_UIDGID, FLAG_PERMISSIONS, FLAG_AMTIME, FLAG_EXTENDED = 1, 2, 4, 8, 0x80000000
 FIELDS = ["size", "uid", "gid", "mode", "atime", "mtime"]
@@ -170,7 +172,7 @@ def canon_attrs(b):
     return out
 
 
-def impl_unpack(buf):
+def impl_unpack(buf, timeout=10.0):
     """('ok', (canonical list, object, consumed)) | ('exc', e) | ('hang', None)"""
     from paramiko.message import Message
     from paramiko.sftp_attr import SFTPAttributes
@@ -183,7 +185,7 @@ def impl_unpack(buf):
 
     if _HUNG:
         return ("hang", None)              # an abandoned thread is still spinning: do not pile up more
-    r = with_watchdog(go, 10.0)
+    r = with_watchdog(go, timeout)
     if r[0] == "hang":
         _HUNG.append(True)
     return r
@@ -436,6 +438,48 @@ def gen_malformed_buf(rng):
 # --------------------------------------------------------------------------- run
 
 
+def mm(ctx, run_fn, case_type, cases):
+    """Model comparison that never stops the implementation-level oracle (translator / model failures
+    are recorded as a broken correspondence instead)."""
+    try:
+        return ctx.model_mismatches(run_fn, case_type, cases)
+    except Exception as e:  # noqa
+        ctx.disagree("model evaluation failed for %s: %s" % (run_fn, str(e)[-400:]))
+        return []
+
+
+def count_guard_present(ctx):
+    """Does the working tree's _unpack refuse impossible pair counts?  (read from the source by gen/c33.py;
+    if the translator aborts, assume it does not, so that no hostile count is fed to the real loop)"""
+    import os
+    import sys
+    g = os.path.join(os.path.dirname(os.path.dirname(os.path.abspath(__file__))), "gen")
+    if g not in sys.path:
+        sys.path.insert(0, g)
+    try:
+        import c33 as gen_c33
+        return bool(gen_c33.analyse(ctx.repo)["count_bounded"])
+    except Exception:  # noqa
+        return False
+
+
+def hostile_count_probe(ctx):
+    """A pair count the message cannot hold must be refused, not looped over (the loop would read zero
+    padding for up to 2^32 rounds).  Run last: on an unguarded _unpack the abandoned thread keeps spinning."""
+    from paramiko.ssh_exception import SSHException
+    for tail in (b"", b"\x00\x00\x00\x01k\x00\x00\x00\x01v", b"\x00" * 7):
+        buf = struct.pack(">II", FLAG_EXTENDED, 20000000) + tail
+        ctx.count(("hostile-count", buf), kind="hostile-count")
+        st, res = impl_unpack(buf, timeout=4.0)
+        if st == "exc" and isinstance(res, SSHException):
+            continue
+        ctx.fail("unpack-count-spin",
+                 "_unpack loops over an extended-pair count the message cannot hold (20,000,000 pairs announced, "
+                 "%d bytes present) instead of refusing it" % len(tail), case={"buf": buf},
+                 expected="SSHException", observed="still running after 4 s" if st == "hang" else repr(res)[:200])
+        return
+
+
 def all_shapes():
     for bits in range(64):
         presence = [bool(bits >> i & 1) for i in range(6)]
@@ -486,10 +530,10 @@ def run(ctx):
                                  impl=repr(res) if st == "exc" else "hang")
             elif raw is None:
                 rt_cases.append((spec, [12]))
-    bad = ctx.model_mismatches("run_pack", "attrs", [(coq_attrs(s), c) for s, c in pack_cases])
+    bad = mm(ctx, "run_pack", "attrs", [(coq_attrs(s), c) for s, c in pack_cases])
     for i in bad[:3]:
         ctx.disagree("SFTPAttributes._pack differs from model", case=pack_cases[i][0], impl=pack_cases[i][1])
-    bad = ctx.model_mismatches("run_roundtrip", "(attrs * list Z)",
+    bad = mm(ctx, "run_roundtrip", "(attrs * list Z)",
                                [("(%s, %s)" % (coq_attrs(s), coq(bytes.fromhex(s["suffix"]))), c)
                                 for s, c in rt_cases])
     for i in bad[:3]:
@@ -498,12 +542,18 @@ def run(ctx):
     ctx.sample({"roundtrip": {"spec": rt_cases[-1][0], "impl": rt_cases[-1][1]}})
 
     # ---- 2. _unpack on blocks no _pack produced ------------------------------------------------------
+    from paramiko.ssh_exception import SSHException
+    guarded = count_guard_present(ctx)
     cases = []
     for _ in range(1500 if ctx.thorough else 300):
         kind, buf = gen_malformed_buf(rng)
-        if ref_count(buf) > MAX_COUNT:
-            continue                       # the real loop would spin for up to 2^32 rounds
+        if ref_count(buf) > MAX_COUNT and not (guarded and ref_count(buf) > len(buf) // 8):
+            continue                       # an unguarded loop would spin for up to 2^32 rounds
         st, res = impl_unpack(buf)
+        if st == "exc" and isinstance(res, SSHException):
+            cases.append((buf, [1]))       # the count guard
+            ctx.count(("unpack", buf), nontrivial=True, kind="unpack-refused-" + kind)
+            continue
         if st != "ok":
             ctx.disagree("_unpack raised / hung on a malformed block", case={"buf": buf},
                          impl=repr(res) if st == "exc" else "hang")
@@ -512,9 +562,9 @@ def run(ctx):
             continue
         if len(res[0]) > 3000:
             continue                       # a zero-padded string of up to 1 MiB: keep case files small
-        cases.append((buf, res[0]))
+        cases.append((buf, [0] + res[0]))
         ctx.count(("unpack", buf), nontrivial=len(buf) > 0, kind="unpack-" + kind)
-    bad = ctx.model_mismatches("run_unpack", "(list Z)", [(coq(b), c) for b, c in cases])
+    bad = mm(ctx, "run_unpack", "(list Z)", [(coq(b), c) for b, c in cases])
     for i in bad[:3]:
         ctx.disagree("SFTPAttributes._unpack differs from model", case={"buf": cases[i][0]}, impl=cases[i][1])
     if cases:
@@ -540,12 +590,15 @@ def run(ctx):
             continue
         ctx.count(("history", repr(case)), kind="history-" + mode)
         cases.append((case, r[0], r[1]))
-    bad = ctx.model_mismatches("run_pack_obj", "(Z * attrs)",
+    bad = mm(ctx, "run_pack_obj", "(Z * attrs)",
                                [("(%s, %s)" % (coq(pr), coq_attrs(c["second"])), canon) for c, pr, canon in cases])
     for i in bad[:3]:
         ctx.disagree("_pack of an object with prior _flags differs from model", case=cases[i][0], impl=cases[i][2])
     if cases:
         ctx.sample({"history": {"case": cases[0][0], "prior_flags": cases[0][1], "impl": cases[0][2]}})
+
+    # ---- 4. a pair count the message cannot hold (last: an unguarded loop keeps spinning) ---------------
+    hostile_count_probe(ctx)
 
 
 def replay(ctx, rep):
@@ -554,6 +607,8 @@ def replay(ctx, rep):
         ctx.count(("replay", repr(case)))
         ctx.count(("replay2", repr(case)))
         history_case(ctx, case)
+    elif isinstance(case, dict) and "buf" in case and rep.get("key") == "unpack-count-spin":
+        hostile_count_probe(ctx)
     elif isinstance(case, dict) and "ext" in case:
         ctx.count(("replay", repr(case)))
         ctx.count(("replay2", repr(case)))
